@@ -77,6 +77,10 @@ func mdnsInputs(thorough bool) []mdnsInput {
 	addrSets := [][2][]net.IP{
 		{nil, nil}, {{nil}, nil}, {{net.IPv4zero}, nil}, {{net.IP{1, 2, 3}}, nil}, {{net.IP{1, 2, 3, 4}}, {net.ParseIP("fe80::1")}},
 		{nil, {net.ParseIP("2001:db8::1"), nil}}, {{net.ParseIP("10.0.0.1"), net.ParseIP("10.0.0.1")}, {net.IP{}}},
+		// several link-local addresses (all of them are filtered out) in every position
+		{nil, {net.ParseIP("fe80::1"), net.ParseIP("fe80::2")}}, {{net.ParseIP("10.0.0.1")}, {net.ParseIP("fe80::1"), net.ParseIP("fe80::2")}},
+		{nil, {net.ParseIP("fe80::1"), net.ParseIP("2001:db8::1"), net.ParseIP("fe80::2")}}, {nil, {net.ParseIP("fe80::1"), net.ParseIP("fe80::2"), net.ParseIP("fe80::3")}},
+		{nil, {net.ParseIP("2001:db8::1"), net.ParseIP("fe80::1"), net.ParseIP("fe80::2"), net.ParseIP("2001:db8::2")}},
 	}
 	for _, host := range []string{"", "h.local", strings.Repeat("h", 300)} {
 		for _, as := range addrSets {
